@@ -124,6 +124,12 @@ check('C15', E2 + ' with two harness-owned ptys',
       'keystrokes / child output served from harness-side buffers (pty delivery is asynchronous); schedule deviation bound 1 (quick) / 2 (thorough); keystroke alphabet of 5 bytes, <= 4 keys',
       'DESIGN.md 3 C15')
 
+check('C14', E2 + ' + controlled real asyncio loop (mc/aio.py)',
+      'deviation-bounded exhaustive schedule exploration of call histories mixing awaited and blocking calls on one object: every placement of each chunk and of EOF among the loop\'s select() calls, the transport\'s reads and the blocking path\'s system calls; reference = naive full re-search (C03) on the chunks as the object received them',
+      'The real SelectorEventLoop and _UnixReadPipeTransport run on the real pty descriptor with a controlled selector and a virtual loop clock; every awaited/blocking call must give the index/exception, before, after, match, buffer that the reference gives for the text it had received, TIMEOUT not before T and by T+0.25, up to the first EOF.',
+      'deviation bound 1 (quick) / 2 (thorough); streams over {a,b,e-acute} up to 4 characters with byte-level cuts; histories of <= 3 calls from a fixed menu',
+      'DESIGN.md 3 C14')
+
 NOT_BUILT = {}
 
 
